@@ -10,7 +10,7 @@ for id in "${ids[@]}"; do
   extra=$(/venv/bin/python -c "import json;m=json.load(open('seeded/$id/meta.json'));print(' '.join(c for c in m.get('checks_run_quick',[]) if c!='$prop'))")
   det=""
   for c in $prop $extra; do
-    out=$(tools/mutant.sh seeded/$id/patch.diff quick $c 2>&1); r=$?
+    out=$(tools/mutant.sh "$PWD/seeded/$id/patch.diff" quick $c 2>&1); r=$?
     how=$(echo "$out" | grep -m1 VIOLATION | grep -q no-failing-input-found && echo "(correspondence only)" || echo "")
     [ $r -ne 0 ] && det="$det $c"
     echo "$id $c exit=$r $how $(echo "$out" | grep -E '^\[' | cut -c1-150)"
